@@ -35,8 +35,18 @@ def gen_case(rng):
     else:
         bound = [round(rng.uniform(0.02, 0.3), 3), round(rng.uniform(0.7, 0.98), 3)]
     use_miss_model = missing is not None and rng.random() < 0.7
+    # truncation of the INITIAL outcome predictions: the documented `bound` of outcome_model, and continuous outcomes
+    # skewed enough that a Gaussian fit predicts outside the observed range (clipped to [cb, 1-cb] by the code)
+    qb = rng.choice(['none', 'none', 'sym', 'pair'])
+    qbound = False if qb == 'none' else (round(rng.uniform(0.05, 0.25), 3) if qb == 'sym'
+                                         else [round(rng.uniform(0.05, 0.25), 3), round(rng.uniform(0.7, 0.9), 3)])
+    if otype == 'normal' and rng.random() < 0.5:
+        y = df['Y']
+        df = df.copy()
+        df['Y'] = np.round(np.exp((y - y.mean()) / (y.std() + 1e-9) * 1.3), 4)     # heavy right tail
+        qb = qb + '+skewed'
     return {'df': df, 'meta': meta, 'bound': bound, 'bkind': b, 'miss_model': use_miss_model,
-            'alpha': rng.choice([0.05, 0.1, 0.2])}
+            'alpha': rng.choice([0.05, 0.1, 0.2]), 'qbound': qbound, 'qkind': qb}
 
 
 def fit(case):
@@ -46,7 +56,7 @@ def fit(case):
     tm.exposure_model(meta['rhs'], bound=case['bound'], print_results=False)
     if case['miss_model']:
         tm.missing_model('A + ' + meta['rhs'], print_results=False)
-    tm.outcome_model('A + ' + meta['rhs'], print_results=False)
+    tm.outcome_model('A + ' + meta['rhs'], bound=case.get('qbound', False), print_results=False)
     tm.fit()
     return tm
 
@@ -56,7 +66,7 @@ def check_case(ctx, fails, case, tr, small_exprs, small_refs):
     n = len(df)
     binary = meta['outcome'] == 'binary'
     payload = {'data': {c: [None if (isinstance(v, float) and v != v) else v for v in df[c].tolist()] for c in df.columns}, 'meta': meta, 'bound': case['bound'], 'miss_model': case['miss_model'],
-               'alpha': case['alpha'], 'bkind': case['bkind']}
+               'alpha': case['alpha'], 'bkind': case['bkind'], 'qbound': case.get('qbound', False), 'qkind': case.get('qkind', 'none')}
     tag = 'TMLE'
     try:
         tm = fit(case)
@@ -97,8 +107,10 @@ def check_case(ctx, fails, case, tr, small_exprs, small_refs):
         if np.any(q1f < lo - 1e-9) or np.any(q1f > hi + 1e-9) or np.any(q0f < lo - 1e-9) or np.any(q0f > hi + 1e-9):
             fails.append((n, 'TMLE.range.continuous', 'a back-transformed targeted prediction left the observed outcome range', payload))
     # initial predictions were clipped into [cb, 1-cb]
-    cb = float(tm._cb)
-    if np.any(np.asarray(tm.QA1W) < cb - 1e-15) or np.any(np.asarray(tm.QA1W) > 1 - cb + 1e-15):
+    qbd = case.get('qbound', False)
+    lo_q, hi_q = (float(tm._cb), 1 - float(tm._cb)) if not qbd else ((qbd, 1 - qbd) if isinstance(qbd, float) else (qbd[0], qbd[1]))
+    if np.any(np.asarray(tm.QA1W) < lo_q - 1e-15) or np.any(np.asarray(tm.QA1W) > hi_q + 1e-15) or \
+            np.any(np.asarray(tm.QA0W) < lo_q - 1e-15) or np.any(np.asarray(tm.QA0W) > hi_q + 1e-15):
         fails.append((n, 'TMLE.initial-not-clipped', 'initial outcome predictions outside [cb, 1-cb]', payload))
     # (4) reported measures are the plug-in of the probe vectors
     if binary:
@@ -139,6 +151,7 @@ def check_case(ctx, fails, case, tr, small_exprs, small_refs):
     ctx.count('missing:' + str(meta['missing']))
     ctx.count('missing_model:' + str(case['miss_model']))
     ctx.count('bound:' + case['bkind'])
+    ctx.count('q-bound:' + case.get('qkind', 'none'))
     ctx.sample({'n': n, 'outcome': meta['outcome'], 'missing': meta['missing'], 'bound': case['bound'], 'epsilon': [float(x) for x in pr['epsilon']],
                 'score_sums': [s1, s0], 'estimate': got}, cap=4)
 
@@ -189,5 +202,5 @@ def replay(ctx, payload):
     fails = []
     df = pd.DataFrame(payload['data'])
     run_cases(ctx, fails, [{'df': df, 'meta': payload['meta'], 'bound': payload['bound'], 'bkind': payload.get('bkind', '?'),
-                            'miss_model': payload['miss_model'], 'alpha': payload['alpha']}])
+                            'miss_model': payload['miss_model'], 'alpha': payload['alpha'], 'qbound': payload.get('qbound', False), 'qkind': payload.get('qkind', 'none')}])
     report(ctx, fails)
